@@ -12,6 +12,20 @@ NOTES = "All checks are bounded-exhaustive model checking of the real Go code (h
 NOT_APPLICABLE = {}
 
 TEXT = {
+    "C11": dict(
+        engine="choice (E1)",
+        design_ref="DESIGN.md §3 C11",
+        technique="tiered bounded-exhaustive generation of AML programs from the supported grammar subset, encoded by an independent encoder and compared with a reference namespace built from the AST; differential cross-check on an overlay with the kept candidate repair",
+        text="T1 every construct (20) x name form (7) x container (13) x PkgLength encoding; T2 41 call/field/operator/module-level programs (forward, backward and nested calls, calls inside If/While/Store/Add/DerefOf/Index, calls with operator arguments, module-level code) x containers and every ordered pair of constructs; T3 nested containers; T4 two-table loads. For every program the reference accepts: ParseAML succeeds, every named object is found at the absolute path ACPI scoping gives it with its declared kind, constants/strings/buffer bytes/field offset+width/mutex level carry the encoded values, every method invocation anywhere has exactly the declared number of arguments attached, no named object sits at a path the program does not declare. Failures whose program exhibits one of the two known root causes (by structural predicate) are reported as known findings and must pass on a second build with the kept repair applied through the overlay; any other failure is a violation.",
+        note="Programs up to the tier sizes; conditionally declared objects (If at table level) are dynamic and outside the static namespace.",
+    ),
+    "C12": dict(
+        engine="choice (E1) + tick/depth instrumentation",
+        design_ref="DESIGN.md §3 C12",
+        technique="exhaustive byte-string enumeration and exhaustive single-point mutation / splice enumeration of well-formed seeds through a loop- and call-instrumented copy of the real parser, against a guard page",
+        text="(1) every byte string of length <=3 over a 94-byte alphabet and <=4 (5) over a 28-byte alphabet; (2) nine well-formed seeds: every truncation, bit flip, byte substitution, length-style corruption, one-byte insertion/deletion and every splice; (3) the same after a first valid table; (4) generated ill-formed programs (self-referential, dangling and over-long paths on every named construct in every container). Oracles per input: no panic, no access beyond the table (guard page), deterministic step budget 2000+400*len and recursion budget 64+8*len, result nil or the parse error, every byte slice in the tree inside the table, tree well-formed (links agree both ways, acyclic, no freed object reachable), printable after success.",
+        note="Three independent corruptions or constructs longer than ~64 bytes are not reached.",
+    ),
     "C20": dict(
         engine="choice (E1)",
         design_ref="DESIGN.md §3 C20",
